@@ -162,3 +162,41 @@ def cell_kind(v):
     if isinstance(v, _np.generic):
         return v.dtype.kind
     return 'O'
+
+
+def is_symbolic(v):
+    return hasattr(v, '__ch_realize__')
+
+
+def num_eq(a, b):
+    """a == b without ever handing z3 a float: a concrete float meeting a symbolic int is compared
+    through its exact integer value (or is unequal when it has a fractional part / is NaN / inf)."""
+    if isinstance(a, float) and is_symbolic(b):
+        a, b = b, a
+    if isinstance(b, float) and is_symbolic(a):
+        if b != b or b in (float('inf'), float('-inf')) or b != int(b):
+            return False
+        return a == int(b)
+    return a == b
+
+
+def num_lt(a, b):
+    """a < b, same rule."""
+    import math
+    if isinstance(b, float) and is_symbolic(a):
+        if b != b:
+            return False
+        if b == float('inf'):
+            return True
+        if b == float('-inf'):
+            return False
+        return a < math.ceil(b)
+    if isinstance(a, float) and is_symbolic(b):
+        if a != a:
+            return False
+        if a == float('inf'):
+            return False
+        if a == float('-inf'):
+            return True
+        return math.floor(a) < b
+    return a < b
